@@ -53,6 +53,7 @@ def run(rep):
     tiff_subimage(rep, fns)
     bmp_mask_decode(rep, fns)
     bmp_rle_subrect(rep, fns)
+    png_interlace(rep, fns)
 
 
 def must_call(rep, fns):
@@ -566,3 +567,35 @@ def bmp_rle_subrect(rep, fns):
 def p12_first_call(n, suffix):
     from . import p12
     return p12.first_call(n, suffix)
+
+
+def png_interlace(rep, fns):
+    rep.rule("S11 png reader: a loop over the interlace passes that reads every row into one and the same row buffer is reached only for single-pass images "
+             "(libpng assembles each row over all passes, so the rows must persist between passes); the multi-pass case reads the whole image with "
+             "png_read_image over one pointer per image row and copies rows top_left.y + y")
+    done = False
+    for f in fns:
+        if fmt_of(f) != "png" or not f["name"].endswith("reader::read_rows") or done:
+            continue
+        done = True
+        rep.count("obligations:S11")
+        prob = []
+        for lp, p in R.find(f["body"], lambda x: x.get("k") == "For" and x.get("cond") is not None and "_number_passes" in R.key(x["cond"])):
+            reads = [c for c, _ in R.find(lp.get("body"), lambda x: x.get("k") == "Call" and (x.get("callee") or {}).get("name", "") in ("png_read_rows", "png_read_row"))]
+            one_buffer = [c for c in reads if not re.search(r"\[", R.key(c["args"][1]))]
+            if one_buffer:
+                gs = R.guards(p)
+                single = any((op, l, r) in (("<=", "_number_passes", "1"), ("==", "_number_passes", "1"), ("<", "_number_passes", "2")) or
+                             (op, l.replace("this.", ""), r) in (("<=", "_number_passes", "1"), ("==", "_number_passes", "1")) for op, l, r in gs)
+                if not single:
+                    prob.append("the pass loop at line %s reads all rows of every pass into %s and is reachable with more than one pass" % (lp.get("line"), R.key(one_buffer[0]["args"][1])))
+        whole = [c for c, p in R.calls_in(f["body"], lambda n: n == "png_read_image")]
+        if not prob and not whole:
+            prob.append("no png_read_image for interlaced images")
+        if prob:
+            rep.violation("S11-interlace", "S11:png:read_rows", R.fn_where(f), {"problems": prob, "problem": "interlaced files decode to mixed-up rows, and sub-rectangle reads disagree with the full read"})
+        else:
+            rep.ok("S11-interlace", "S11:png:read_rows", "multi-pass images go through png_read_image; the one-buffer pass loop only runs for one pass")
+    if not done:
+        rep.fail_analysis("S11: png reader::read_rows not instantiated")
+    rep.floor("obligations:S11", 1)
